@@ -21,6 +21,8 @@ pub struct FdCfg {
     pub window: usize,
     pub max_interval: Duration,
     pub initial_interval: Duration,
+    /// None = effectively infinite
+    pub dead_grace: Option<Duration>,
 }
 
 /// Harness-side shadow of what was delivered for one member.
@@ -58,7 +60,7 @@ struct Rig {
 
 impl Rig {
     fn new(cfg: FdCfg, n_members: usize, ctx: String) -> Rig {
-        let o = NodeOpts { phi: cfg.phi, window: cfg.window, max_interval: cfg.max_interval, initial_interval: cfg.initial_interval, dead_grace: Duration::from_secs(1_000_000_000), ..Default::default() };
+        let o = NodeOpts { phi: cfg.phi, window: cfg.window, max_interval: cfg.max_interval, initial_interval: cfg.initial_interval, dead_grace: cfg.dead_grace.unwrap_or(Duration::from_secs(1_000_000_000)), ..Default::default() };
         Rig {
             main: mk_node(simple_id("r", 9000), &o),
             twin: mk_node(simple_id("r", 9000), &o),
@@ -134,6 +136,19 @@ impl Rig {
             if hb(&self.main.cc) != hb(&self.twin.cc) {
                 let (a, b) = (hb(&self.main.cc), hb(&self.twin.cc));
                 self.fail(&["C11"], "fd.twin_heartbeat", format!("stored heartbeat of x{i}: {a:?} with stale values delivered, {b:?} without"));
+            }
+            // removed after the dead-node grace period: the copy's lifetime ends (both nodes must agree on that)
+            let known_main = self.main.cc.node_state(&id).is_some();
+            let known_twin = self.twin.cc.node_state(&id).is_some();
+            if known_main != known_twin {
+                self.fail(&["C11"], "fd.twin_membership", format!("x{i} known = {known_main} with stale values delivered, {known_twin} without"));
+            }
+            if self.shadows[i].known && !known_main {
+                self.out.c.inc("members_removed");
+                let sh = &mut self.shadows[i];
+                sh.known = false;
+                sh.fresh.clear();
+                sh.last_dead_eval = None;
             }
             let sh = self.shadows[i].clone();
             if !sh.known {
@@ -229,6 +244,15 @@ pub async fn random_history(seed: u64, i: u64, max_events: usize) -> HistOut {
         window: [1usize, 2, 10, 1000][rng.random_range(0..4)],
         max_interval: Duration::from_secs_f64(scale * [1.0, 2.0, 10.0][rng.random_range(0..3)]),
         initial_interval: Duration::from_secs_f64(scale * [0.5, 1.0, 5.0, 20.0][rng.random_range(0..4)]),
+        dead_grace: None,
+    };
+    // a third of the histories use a short dead-node grace period: members get scheduled for deletion, removed and
+    // re-created while heartbeats keep (or resume) arriving
+    let cfg = if rng.random_range(0..3) == 0 {
+        let bound = cfg.max_interval.max(cfg.initial_interval).mul_f64(cfg.phi);
+        FdCfg { dead_grace: Some(bound * [3u32, 6, 12][rng.random_range(0..3)]), ..cfg }
+    } else {
+        cfg
     };
     let nm = rng.random_range(1..=3);
     let mut rig = Rig::new(cfg.clone(), nm, format!("history {i} cfg {cfg:?}"));
@@ -283,7 +307,7 @@ pub async fn random_history(seed: u64, i: u64, max_events: usize) -> HistOut {
 
 /// Exact-boundary witnesses with dyadic values: every float operation is exact.
 pub async fn exact_witness(phi: f64, interval: Duration, window: usize, n_beats: usize) -> HistOut {
-    let cfg = FdCfg { phi, window, max_interval: interval, initial_interval: interval };
+    let cfg = FdCfg { phi, window, max_interval: interval, initial_interval: interval, dead_grace: None };
     let mut rig = Rig::new(cfg.clone(), 1, format!("exact-boundary witness phi {phi} interval {interval:?} window {window} beats {n_beats}"));
     let x = cid(&member(0));
     let mut v = 10;
